@@ -527,6 +527,18 @@ def check_coercion(ctx, rep, rule: str, modules):
                             guarded = True
             cons = construct_of(f, f"coercion:{ast.unparse(c)[:40]}")
             loc = f"{f.path}:{c.lineno}"
+            # int() of a float must additionally sit behind an integrality test (2.5 is not 2)
+            if guarded and c.func.id == "int" and isinstance(fl.parent.get(id(c)), (ast.Return, ast.Assign)):
+                integral = False
+                for t in tests:
+                    for m in ast.walk(t):
+                        if isinstance(m, ast.Call) and isinstance(m.func, ast.Attribute) and m.func.attr == "is_integer":
+                            integral = True
+                        if isinstance(m, ast.Compare) and len(m.ops) == 1 and isinstance(m.ops[0], ast.Eq) and any(isinstance(k, ast.Call) and isinstance(k.func, ast.Name) and k.func.id == "int" for k in ast.walk(m)):
+                            integral = True
+                if not integral:
+                    rep.violation(rule, cons, f"`{ast.unparse(c)}` truncates: nothing tests that `{key}` is integral before it is converted (an index or count 2.5 silently becomes 2)", loc)
+                    continue
             if guarded:
                 rep.ok(rule, cons, f"`{ast.unparse(c)}` runs only after isinstance({key}, <plain number>)", loc)
             else:
@@ -723,16 +735,23 @@ def check_zero_trip(ctx, rep, rule, exclude=()):
                 cons = construct_of(fi, f"zero-trip:{count}")
                 loc = f"{fi.path}:{st.lineno}"
                 guard = None
+                wrong = None
                 for g in iter_stmts(fi.body):
                     if isinstance(g, ast.If) and g.lineno < st.lineno:
                         for c in ast.walk(g.test):
                             if isinstance(c, ast.Compare) and len(c.ops) == 1:
                                 l, r = ast.unparse(c.left), ast.unparse(c.comparators[0])
-                                if (l == count and r in ("0", "1") and isinstance(c.ops[0], (ast.LtE, ast.Lt, ast.Eq))) or (r == count and l in ("0", "1") and isinstance(c.ops[0], (ast.GtE, ast.Gt, ast.Eq))):
+                                ok_l = l == count and ((r == "0" and isinstance(c.ops[0], (ast.LtE, ast.Eq))) or (r == "1" and isinstance(c.ops[0], ast.Lt)))
+                                ok_r = r == count and ((l == "0" and isinstance(c.ops[0], (ast.GtE, ast.Eq))) or (l == "1" and isinstance(c.ops[0], ast.Gt)))
+                                if ok_l or ok_r:
                                     guard = g
+                                elif (l == count and r in ("0", "1", "2")) or (r == count and l in ("0", "1", "2")):
+                                    wrong = g
                             if isinstance(c, ast.UnaryOp) and isinstance(c.op, ast.Not) and ast.unparse(c.operand) == count:
                                 guard = g
-                if guard is not None:
+                if guard is None and wrong is not None:
+                    rep.violation(rule, cons, f"`{ast.unparse(wrong.test)}` is not the zero-trip test (it also catches loops that do run, or misses count 0): a loop with a count of one is skipped, or a zero-count loop is waited for", loc)
+                elif guard is not None:
                     rep.ok(rule, cons, f"`{ast.unparse(guard.test)}` handles the zero-trip case before the loop", loc)
                 else:
                     w = waits[0]
